@@ -1,4 +1,4 @@
-"""BSTR model of textwrap.TextWrapper.wrap / fill (defaults + break_long_words=False, break_on_hyphens=False) and
+"""BSTR model of textwrap.TextWrapper.wrap / fill (defaults, break_long_words either way, break_on_hyphens=False) and
 the C20 obligations on gapic.utils.lines.wrap:  the re-flow never drops, duplicates or reorders words.
 
 The model follows CPython's Lib/textwrap.py step by step (_munge_whitespace: expandtabs + whitespace -> ' ';
@@ -22,8 +22,8 @@ def _is_tw_ws(c):
 
 def tw_wrap(text, width=70, initial_indent="", subsequent_indent="", break_long_words=True, break_on_hyphens=True,
             **kw):
-    if break_long_words or break_on_hyphens or kw:
-        raise bstr.Unsupported("textwrap model: only break_long_words=False, break_on_hyphens=False")
+    if break_on_hyphens or kw:
+        raise bstr.Unsupported("textwrap model: only break_on_hyphens=False and the default remaining options")
     br = bstr.ctx().branch
     text = bstr.S(text)
     ii, si = bstr.S(initial_indent), bstr.S(subsequent_indent)
@@ -76,7 +76,13 @@ def tw_wrap(text, width=70, initial_indent="", subsequent_indent="", break_long_
             else:
                 break
         if chunks and len(chunks[-1][0]) > w_:
-            if not cur_line:                      # _handle_long_word, break_long_words=False
+            # _handle_long_word
+            if break_long_words:
+                space_left = 1 if w_ < 1 else w_ - cur_len
+                word, is_ws = chunks[-1]
+                cur_line.append((word[:space_left], is_ws))
+                chunks[-1] = (word[space_left:], is_ws)
+            elif not cur_line:
                 cur_line.append(chunks.pop())
         if cur_line and cur_line[-1][1]:
             del cur_line[-1]
